@@ -441,6 +441,8 @@ class Respondent(httping.Parsent):
                     leaderParser.close()
                     break
                 (yield None)
+            # line parser above was closed so need new one for next status line
+            lineParser = httping.parseLine(raw=self.msg, eols=(CRLF, LF), kind="status line")
 
         self.code = self.status = status
         self.reason = reason.strip()
